@@ -10,6 +10,7 @@ import (
 
 	"github.com/vicanso/elton"
 	"github.com/vicanso/elton/middleware"
+	"github.com/vicanso/pike/config"
 	"github.com/vicanso/pike/upstream"
 )
 
@@ -58,7 +59,7 @@ func suiteUpsel(r *rng, n int) {
 		ns := 1 + cr.intn(4)
 		policy := cr.pick([]string{"first", "random", "roundRobin", "leastconn", ""})
 		var servers []*upSrv
-		var cfgs []upstream.UpstreamServerConfig
+		var cfgs []config.UpstreamServerConfig
 		for j := 0; j < ns; j++ {
 			ln, _ := net.Listen("tcp", "127.0.0.1:0")
 			addr := ln.Addr().String()
@@ -68,9 +69,13 @@ func suiteUpsel(r *rng, n int) {
 				u.start()
 			}
 			servers = append(servers, u)
-			cfgs = append(cfgs, upstream.UpstreamServerConfig{Addr: "http://" + addr, Backup: u.backup})
+			cfgs = append(cfgs, config.UpstreamServerConfig{Addr: "http://" + addr, Backup: u.backup})
 		}
-		us := upstream.NewUpstreamServer(upstream.UpstreamServerOption{Name: "u", Policy: policy, Servers: cfgs})
+		// through the registry, as main.update does, with a second upstream group next to the one under test
+		ucfg := []config.UpstreamConfig{{Name: "u", Policy: policy, Servers: cfgs},
+			{Name: "zz-other", Servers: []config.UpstreamServerConfig{{Addr: "http://127.0.0.1:1"}}}}
+		upstream.Reset(ucfg)
+		us := upstream.Get("u")
 		e := elton.New()
 		e.Use(middleware.NewDefaultError())
 		e.ALL("/*", us.Proxy)
@@ -93,6 +98,16 @@ func suiteUpsel(r *rng, n int) {
 			return strings.Join(fs, ",")
 		}
 		for phase := 0; phase < 3; phase++ {
+			if phase == 1 && cr.chance(50) {
+				// a configuration reload that leaves this upstream as it is: a new object with a running checker
+				upstream.Reset(ucfg)
+				us = upstream.Get("u")
+				e = elton.New()
+				e.Use(middleware.NewDefaultError())
+				e.ALL("/*", us.Proxy)
+				p = &pipeline{e: e}
+				rrCount = 0
+			}
 			if phase > 0 {
 				// flip one or two servers; set the status the checker would set
 				for k := 0; k < 1+cr.intn(2); k++ {
@@ -131,7 +146,7 @@ func suiteUpsel(r *rng, n int) {
 				stat("call-" + policy)
 			}
 		}
-		us.Destroy()
+		upstream.Reset(nil)
 		for _, u := range servers {
 			u.stop()
 		}
